@@ -5,7 +5,7 @@ import os
 
 VERIF = os.path.dirname(os.path.dirname(os.path.abspath(__file__)))
 
-TRUST = ("CBMC 6.11 (C front end, pointer/IEEE-754 models, MiniSat back end); lowering rules of DESIGN.md 4.1; "
+TRUST = ("CBMC 6.11 (C front end, pointer/IEEE-754 models; back ends: portfolio MiniSat | CaDiCaL, cvc5 1.0 for floating-point value identities, z3 for integer/real lemmas -- the evidence names the one that answered each check); lowering rules of DESIGN.md 4.1; "
          "callee contracts used at call sites are verified separately or listed as assumed in the evidence; "
          "malloc does not fail; Index=int, Float=double")
 
